@@ -279,7 +279,7 @@ CHECKS["C11"] = dict(
         ob("VH_C11_open", dict(NI=2, NE=0), covers=["reported", "hidden"], bounds="<=2 include patterns"),
         ob("VH_C11_open", dict(NI=0, NE=2), covers=["reported", "hidden"], bounds="<=2 exclude patterns"),
         ob("VH_C11_open", dict(NI=1, NE=1), covers=["reported", "hidden"], bounds="<=1 include and <=1 exclude pattern"),
-        ob("VH_C11_hardlinks", {}, covers=["link", "hidden", "done"], bounds="5-entry view, all group layouts, all hidden subsets"),
+        ob("VH_C11_hardlinks", {}, covers=["link", "special-link", "hidden", "done"], bounds="5-entry view, all group layouts over regular / fifo / character-device inodes, all hidden subsets"),
         ob("VH_C11_open", dict(NI=2, NE=1), T, covers=["reported", "hidden"], bounds="<=2 include, <=1 exclude", max_paths=600000),
     ],
 )
